@@ -244,3 +244,34 @@ def run(ctx):
             ok = b.lo is not None and b.lo == 0 and b.hi is not None and b.hi == alen - 1
             ctx.ob('FORMAT-LISTS', 'psf_get_format_info:%s[%s]@%s' % (f.s(n['kids'][0]), f.s(n['kids'][1]), 'cmp' if f.parent.get(n['id']) is not None and f.N[f.parent[n['id']]]['k'] == 'MemberExpr' else 'copy'),
                    ok, f.loc(n), 'search index %s' % ('covers exactly [0,%d] (whole table)' % (alen - 1) if ok else 'does NOT range over exactly the whole table [0,%d]: %r' % (alen - 1, b)), repr(b))
+
+    # ------------------------------------------------------------------ CHANNEL-LIMIT
+    ctx.rule('CHANNEL-LIMIT', 'the largest channel count sf_format_check accepts is the largest every header reader and validate_sfinfo accept: every comparison of a channel count with the '
+             'limit constant K (taken from sf_format_check: `info->channels > K` rejects) is equivalent to `> K` — a reader that rejects `>= K` cannot re-open a file the writer produced', floor=10)
+    K = None
+    for n in fc.walk():
+        if n['k'] == 'BinaryOperator' and n.get('op') == '>' and fc.s(n['kids'][0]) == 'info->channels':
+            kv = fc.unwrap(fc.N[n['kids'][1]]).get('v')
+            K = kv if (K is None or (kv is not None and kv > K)) else K      # the general limit (codec specific limits are smaller)
+    ctx.require(K is not None, 'sf_format_check has no `info->channels > K` rejection')
+    nlim = 0
+    for g in sorted(prog.lib_fns(), key=lambda g: (g.file, g.line)):
+        k2 = 0
+        for n in g.walk():
+            if n['k'] != 'BinaryOperator' or n.get('op') not in ('<', '<=', '>', '>=', '==', '!='):
+                continue
+            a, b = g.unwrap(g.N[n['kids'][0]]), g.unwrap(g.N[n['kids'][1]])
+            op = n['op']
+            if b.get('v') is None and a.get('v') is not None:
+                a, b = b, a
+                op = {'<': '>', '>': '<', '<=': '>=', '>=': '<='}.get(op, op)
+            v = b.get('v')
+            if v is None or abs(v - K) > 1 or 'hannels' not in g.s(a) or a.get('v') is not None:
+                continue
+            nlim += 1
+            k2 += 1
+            ok = (op == '>' and v == K) or (op == '>=' and v == K + 1) or (op == '<=' and v == K) or (op == '<' and v == K + 1)
+            ctx.ob('CHANNEL-LIMIT', '%s:%s#%d' % (g.name, g.s(a)[:40], k2), ok, g.loc(n), '`%s`: %s' % (g.s(n)[:60], 'same limit as sf_format_check (%d channels accepted)' % K if ok else
+                   'disagrees with sf_format_check, which accepts up to %d channels: a file written with the maximum is refused here' % K), None)
+    ctx.require(nlim >= 10, 'only %d channel limit comparisons found' % nlim)
+
